@@ -242,7 +242,7 @@ def run(chk):
                 want = parse_mono(dims_want.get(measures[i], "?")) if measures[i] in dims_want else None
                 chk.instance(r_dim, key, sample=dict(system=sysname, measure=measures[i], formula=mono_str(m)))
                 if want is None:
-                    chk.violation(r_dim, key, "measure %s has no frozen dimensional formula in tables/measure_dims.json (confirm and add it)" % measures[i], fv["file"], fr[i].get("l"))
+                    chk.fail_broken("C02.dim: measure %s has no frozen dimensional formula in tables/measure_dims.json (confirm and add it)" % measures[i])
                 elif m is None or m[0] != 1 or m[1] != want[1]:
                     # spelt differently: decide on the value (constants are compile-time, evaluated by clang)
                     val = fr[i].get("fv", fr[i].get("v"))
@@ -321,7 +321,7 @@ def run(chk):
             val = show(strip(args[0])).replace("Opm::", "")
             chk.instance(r_add, key, sample=dict(system=sysname, dimension=nm, factor=val))
             if nm not in comp:
-                chk.violation(r_add, key, "dimension '%s' has no frozen constant in tables/measure_dims.json (confirm and add it)" % nm, fn["file"], line)
+                chk.fail_broken("C02.adddim: " + "dimension '%s' has no frozen constant in tables/measure_dims.json (confirm and add it)" % nm)
                 continue
             if ns is None:
                 if val not in ("1", "1.0"):
@@ -364,7 +364,7 @@ def run(chk):
             chk.violation(r_phys, q, "%s = %.17g, but its physical definition (%s) is %.17g" % (q, got, expr, want), v["file"], v["l"])
     for q, v in consts.items():
         if q not in phys["constants"]:
-            chk.violation(r_phys, "unlisted:" + q, "constant %s is not in tables/physical_units.json (confirm its definition and add it)" % q, v["file"], v["l"])
+            chk.fail_broken("C02.phys: " + "constant %s is not in tables/physical_units.json (confirm its definition and add it)" % q)
 
     # ---- affine forms
     r_aff = chk.rule("C02.affine", "to_si is v*T + O and from_si is (v - O)*F on the wired tables (with C02.inv this makes them mutual inverses); Dimension::convert* likewise", floor=6)
